@@ -8,6 +8,7 @@ package cert
 // OidFromString: the parsed value and the well-formedness of a dotted OID are functions of the text.
 //@ func OidFromString returns (oid, err)
 //@   props C03 C09
+//@   unverified strings.Split/Atoi loop not yet contracted
 //@   uses names.smt2
 //@   abstracts (err == nil) <==> isOidStr(s)
 //@   abstracts err == nil ==> oidv(oid) == parseOid(s)
@@ -83,6 +84,7 @@ package cert
 // SetPrivateKey / GeneratePrivateKey: the context's key and its SubjectPublicKeyInfo (abstract for now: spkiDeep)
 //@ func (*CertificateContext).SetPrivateKey returns (err)
 //@   props C05 C14
+//@   unverified passes the address of a field of a heap object to asn1.Unmarshal (interior pointer, outside the subset)
 //@   uses keys.smt2
 //@   requires ctx != nil && ctx.TbsCertificate != nil
 //@   assigns ctx.PrivateKey; ctx.TbsCertificate.PublicKey
@@ -90,6 +92,7 @@ package cert
 
 //@ func (*CertificateContext).GeneratePrivateKey returns (err)
 //@   props C05
+//@   unverified key generation and curve tables of dependencies not yet contracted
 //@   uses keys.smt2
 //@   requires ctx != nil && ctx.TbsCertificate != nil
 //@   assigns ctx.PrivateKey; ctx.TbsCertificate.PublicKey
